@@ -43,6 +43,20 @@ def sd_est(Y, Yr, dt, n, method, pov):
     return np.asarray(f), np.asarray(S)
 
 
+def sd_est_raw(Y, Yr, dt, n, method, pov):
+    """the arrays go in exactly as stored (integer dtypes stay integer)"""
+    with warnings.catch_warnings():
+        warnings.simplefilter("ignore")
+        f, S = fdd.SD_est(Y, Yr, dt, n, method, pov)
+    return np.asarray(f), np.asarray(S)
+
+
+def counts(rng, shape, amp, dtype, offset=True):
+    """integer-stored record (raw ADC counts): +-amp counts around a per-channel offset"""
+    off = rng.integers(-3 * amp - 2, 3 * amp + 3, size=(shape[0], 1)) if offset else 0
+    return (rng.integers(-amp, amp + 1, size=shape) + off).astype(dtype)
+
+
 def relerr(a, b):
     s = np.abs(b).max()
     return np.abs(a - b).max() / s if s > 0 else np.abs(a - b).max()
@@ -97,6 +111,15 @@ def corr_case(rng, n, nall, nref, pn, pd, K, dt, same_ref, extra):
         ref = None
         Yr = dyad(rng, (nref, Ndat))
     return dict(n=n, pn=pn, pd=pd, K=K, dt=dt, Ndat=Ndat, Y=Y.tolist(), Yref=Yr.tolist(), ref=ref)
+
+
+def corr_case_int(rng, n, nall, nref, pn, pd, K, dt, extra, amp, dtype):
+    """record stored as an integer array (dtype name kept in the case): the model gets the same integers exactly"""
+    nov = (n * pn) // pd
+    Ndat = nov + K * (n - nov) + extra
+    Y = counts(rng, (nall, Ndat), amp, dtype)
+    Yr = counts(rng, (nref, Ndat), amp, dtype)
+    return dict(n=n, pn=pn, pd=pd, K=K, dt=dt, Ndat=Ndat, Y=Y.tolist(), Yref=Yr.tolist(), ref=None, dtype=np.dtype(dtype).name)
 
 
 def twiddles(n):
@@ -209,6 +232,14 @@ def correspondence(ctx):
         cases.append(("per", c, "edge"))
         if kind in (1, 3):
             cases.append(("cor", c, "edge"))
+    # integer-stored records (raw counts, int32 / int64, small and large amplitudes): SD_est gets the integer array, the model the same integers
+    for r in range(ctx.n(6, 16)):
+        n = [8, 16, 8, 16, 32, 8][r % 6]
+        amp = [4, 300, 20000][r % 3]
+        dtype = [np.int32, np.int64][(r // 3) % 2]
+        c = corr_case_int(rng, n, int(rng.integers(1, 4)), int(rng.integers(1, 3)), *povs[int(rng.integers(len(povs)))], int(rng.integers(2, 5)),
+                          dts[int(rng.integers(len(dts)))], int(rng.integers(0, 3)), amp, dtype)
+        cases.append(("per" if r % 2 == 0 else "cor", c, "integer"))
     # which evaluator: fast for powers of two; the generic one-carrier model for the rest, and BOTH on the small cases
     exprs, plan = [], []
     nboth = 0
@@ -242,7 +273,10 @@ def correspondence(ctx):
     for idx, (method, c, origin) in enumerate(cases):
         pov = c["pn"] / c["pd"]
         try:
-            f, S = sd_est(c["Y"], c["Yref"], c["dt"], c["n"], method, pov)
+            if c.get("dtype"):
+                f, S = sd_est_raw(np.array(c["Y"], dtype=c["dtype"]), np.array(c["Yref"], dtype=c["dtype"]), c["dt"], c["n"], method, pov)
+            else:
+                f, S = sd_est(c["Y"], c["Yref"], c["dt"], c["n"], method, pov)
         except Exception as ex:
             ctx.count(dict(kind="corr", method=method, case=c))
             ofail(ctx, method, "exception", "raises %s (%s) on a valid record" % (type(ex).__name__, str(ex)[:120]), dict(kind="corr", method=method, case=c))
@@ -458,6 +492,65 @@ def oracle_welch(ctx):
                       dict(kind="noise-integral", n=n, fs=fs, sigma=sig, N=N))
 
 
+def integer_record_checks(ctx, method, Y, Yr, Z, Zr, fs, n, m, case):
+    """property text on an integer-stored record: (a) same estimate as for the float image of the record; (b) 'per': Welch's estimate
+    (lines >= 2); (c) bilinear with integer gains applied in integer arithmetic, g^2 for a common integer gain."""
+    pov = m / n
+    with Guard(ctx, method, case):
+        f, S = sd_est_raw(Y, Yr, 1.0 / fs, n, method, pov)
+        ff, Sf = sd_est(Y.astype(float), Yr.astype(float), 1.0 / fs, n, method, pov)
+        if S.shape != Sf.shape or not np.allclose(f, ff, rtol=1e-12, atol=0) or relerr(S, Sf) > 1e-12:
+            ofail(ctx, method, "integer-record", "the estimate of a record stored as %s differs from that of the same values stored as float by %.3g (limit 1e-12)"
+                  % (Y.dtype, relerr(S, Sf) if S.shape == Sf.shape else float("inf")), case)
+            if S.shape != Sf.shape:
+                return
+        if method == "per":
+            W = welch_independent(Y.astype(float), Yr.astype(float), fs, n, m)
+            dev = relerr(S[:, :, 2:], W[:, :, 2:])
+            if dev > 1e-9:
+                ofail(ctx, method, "integer-welch", "record stored as %s: differs from Welch's averaged Hann-windowed one-sided density (lines >= 2) by %.3g" % (Y.dtype, dev), case)
+        g, a, b = 3, 2, -3
+        _, Sg = sd_est_raw(g * Y, g * Yr, 1.0 / fs, n, method, pov)
+        if (g * Y).dtype != Y.dtype or relerr(Sg, g * g * S) > 1e-9:
+            ofail(ctx, method, "integer-gain2", "record stored as %s: Sy(%d Y, %d Yref) differs from %d Sy(Y, Yref) by %.3g" % (Y.dtype, g, g, g * g, relerr(Sg, g * g * S)), case)
+        _, S2 = sd_est_raw(a * Y + Z, b * Yr + Zr, 1.0 / fs, n, method, pov)
+        Sb = (a * b * S + a * sd_est_raw(Y, Zr, 1.0 / fs, n, method, pov)[1] + b * sd_est_raw(Z, Yr, 1.0 / fs, n, method, pov)[1]
+              + sd_est_raw(Z, Zr, 1.0 / fs, n, method, pov)[1])
+        if relerr(S2, Sb) > 1e-9:
+            ofail(ctx, method, "integer-bilinear", "record stored as %s: not bilinear in (data, reference data) for integer combinations: rel. dev %.3g" % (Y.dtype, relerr(S2, Sb)), case)
+
+
+def oracle_integer(ctx):
+    rng = ctx.np_rng
+    for path in sorted(glob.glob(os.path.join(VERIF, "corpus", "C13", "*.json"))):
+        c = json.load(open(path))
+        if c.get("kind") == "integer":
+            Y, Yr = np.array(c["Y"], dtype=c["dtype"]), np.array(c["Yref"], dtype=c["dtype"])
+            Z, Zr = np.array(c["Z"], dtype=c["dtype"]), np.array(c["Zref"], dtype=c["dtype"])
+            for method in ("per", "cor"):
+                ctx.count(dict(kind="corpus-integer", file=os.path.basename(path), method=method))
+                integer_record_checks(ctx, method, Y, Yr, Z, Zr, c["fs"], c["n"], c["noverlap"], dict(c, method=method, corpus=os.path.basename(path)))
+    confs = [(n, amp, dtype) for n in ([16, 64, 25, 256] if ctx.quick() else [16, 32, 64, 25, 100, 125, 256, 1024])
+             for amp in (4, 300, 20000) for dtype in (np.int32, np.int64)]
+    for (n, amp, dtype) in confs:
+        nall, nref = int(rng.integers(1, 5)), int(rng.integers(1, 4))
+        m = [0, n // 4, n // 2, (3 * n) // 4][int(rng.integers(4))]
+        if exact_pov(n, m) is None:
+            ctx.not_judged += 1
+            continue
+        fs = float(rng.choice([100.0, 12.5, 51.2, 99.0, 0.5, 1.0]))
+        N = m + int(rng.integers(2, 7)) * (n - m) + int(rng.integers(0, n - m))
+        N = max(N, n)
+        Y, Yr = counts(rng, (nall, N), amp, dtype), counts(rng, (nref, N), amp, dtype)
+        Z, Zr = counts(rng, (nall, N), amp, dtype), counts(rng, (nref, N), amp, dtype)
+        for method in ("per", "cor"):
+            case = dict(kind="integer", method=method, dtype=np.dtype(dtype).name, n=n, noverlap=m, fs=fs, N=N, amplitude=amp,
+                        Y=Y[:, :96].tolist(), Yref=Yr[:, :96].tolist(), Z=Z[:, :96].tolist(), Zref=Zr[:, :96].tolist(), truncated=N > 96)
+            ctx.count(dict(kind="integer", method=method, dtype=np.dtype(dtype).name, n=n, m=m, fs=fs, N=N, amp=amp, d=int(Y[0, 0])))
+            ctx.hist("integer_records", (method, np.dtype(dtype).name, amp))
+            integer_record_checks(ctx, method, Y, Yr, Z, Zr, fs, n, m, case)
+
+
 def oracle_gain_delay(ctx):
     """channel 1 = g * channel 0 delayed by d samples: Sy[0][1]/Sy[0][0] = g exp(-2 pi i f d/fs)."""
     rng = ctx.np_rng
@@ -564,6 +657,8 @@ def class_sequence(ctx, spec, origin="gen"):
     drng = np.random.default_rng(spec["seed"])
     base = drng.standard_normal((max(su["N"] for su in spec["setups"]), spec["nch"]))
     datas = [su["gain"] * base[:su["N"]] + (0.0 if k == 0 else 0.25 * drng.standard_normal((su["N"], spec["nch"]))) for k, su in enumerate(spec["setups"])]
+    if spec.get("dtype"):  # records stored as integer counts; the expected value below is SD_est on their float image
+        datas = [(np.rint(spec["counts"] * d) + 11).astype(spec["dtype"]) for d in datas]
     cur = dict(spec["init"])
     where = 0
     kw = dict(name="a", nxseg=cur["nxseg"], method_SD=cur["method"], pov=cur["pov"])
@@ -617,10 +712,12 @@ def class_sequence(ctx, spec, origin="gen"):
         elif kind == "run" and si > 0 and not (np.array_equal(Sr, prev) and np.array_equal(fr, prevf)):
             bad = "running twice with nothing changed gives a different result"
         if bad:
-            desc = {"run": "re-run unchanged", "pov": "pov only changed %s -> %s" % (before["pov"], cur["pov"]),
+            desc = {"run": "first run" if si == 0 else "re-run unchanged", "pov": "pov only changed %s -> %s" % (before["pov"], cur["pov"]),
                     "nxseg": "nxseg only changed %s -> %s" % (before["nxseg"], cur["nxseg"]),
                     "method": "method only changed %s -> %s" % (before["method"], cur["method"]),
                     "attach": "object re-attached to a setup with other data (gain %g) and fs %g" % (spec["setups"][where]["gain"], fs)}[kind]
+            if spec.get("dtype"):
+                desc += "; record stored as %s" % spec["dtype"]
             ctx.fail("oracle", "%s (run %d of one object; %s): %s" % (spec["cls"], si, desc, bad), case, key="C13:glue:%s:%s" % (spec["cls"], kind))
             return
         prev, prevf = Sr.copy(), fr.copy()
@@ -648,6 +745,8 @@ def oracle_classes(ctx):
             steps += [["pov", p2], ["attach", 0], ["method", m0], ["nxseg", n0], ["run"]]
             spec = dict(cls=cname, seed=int(rng.integers(1 << 30)), nch=int(rng.integers(2, 5)), setups=setups,
                         init=dict(nxseg=n0, method=m0, pov=p0), steps=steps)
+            if rep % 2 == 1 or cname in ("FDD", "pLSCF") and rep == 0:
+                spec.update(dtype=["int32", "int64"][int(rng.integers(2))], counts=[2.0, 150.0, 9000.0][int(rng.integers(3))])
             class_sequence(ctx, spec)
 
 
@@ -687,6 +786,7 @@ def run(ctx):
     oracle_corpus(ctx)
     correspondence(ctx)
     oracle_grid_pairing_bilinear(ctx)
+    oracle_integer(ctx)
     oracle_welch(ctx)
     oracle_gain_delay(ctx)
     oracle_sinusoid(ctx)
